@@ -90,6 +90,18 @@ func bare(a attrs, r *gen.Rand) D {
 			d.SetUPID([]byte("SIGNAL:same-content"))
 		}
 		d.SetIsEventCanceled(r.Chance(4)) // not one of the conditions the relation may depend on
+		if r.Chance(3) {
+			// component mode with per-component offsets: neither relation looks at them
+			d.SetHasProgramSegmentation(false)
+			var cs []scte35.ComponentOffset
+			for k := 1 + r.Intn(3); k > 0; k-- {
+				co := scte35.CreateComponentOffset()
+				co.SetComponentTag(r.Byte())
+				co.SetPTSOffset(gots.PTS(r.PickU64([]uint64{0, 500, 1000, 1, 1<<33 - 1000, r.U33()})))
+				cs = append(cs, co)
+			}
+			d.SetComponents(cs)
+		}
 	}
 	return d
 }
